@@ -34,7 +34,7 @@ impl Prop for C19 {
         "fault_enumeration"
     }
     fn rule(&self) -> String {
-        "cases = a generated conversation (C03-style: writer programs with explicit finishes and drops, prepared statements, QUIT- or EOF-terminated, generated read/write chunking) run fault-free to obtain its operation trace (N transport operations, B inbound bytes), then re-run with EVERY fault point: end-of-stream after k bytes for k = 0..B; a one-off error at operation k, a persistent error from operation k, and write() -> Ok(0) at operation k for k = 0..N-1; plus a tagged shim error at every callback index. Oracle: EOF => Ok iff k is a command boundary at or after the end of the handshake exchange (or QUIT was already consumed), else Err; transport fault => Err (never Ok, never a panic), the callback log is a prefix of the fault-free log and no callback starts after the fault; shim error => returned unchanged, no later callback. evaluations counts conversations; faulted_runs counts the enumerated re-runs. Non-trivial = the conversation has >= 3 commands and >= 1 resultset program.".into()
+        "cases = a generated conversation (C03-style: writer programs with explicit finishes and drops, prepared statements, QUIT- or EOF-terminated, generated read/write chunking) run fault-free to obtain its operation trace (N transport operations, B inbound bytes), then re-run with EVERY fault point: end-of-stream after k bytes for k = 0..B; a one-off error at operation k, a persistent error from operation k, and write() -> Ok(0) at operation k for k = 0..N-1; plus a tagged shim error at every callback index; enumerated conversations whose response contains a packet of 2^24-1 bytes or more (written explicitly and from a destructor). Oracle: EOF => Ok iff k is a command boundary at or after the end of the handshake exchange (or QUIT was already consumed), else Err; transport fault => Err (never Ok, never a panic), the callback log is a prefix of the fault-free log and no callback starts after the fault; shim error => returned unchanged, no later callback. evaluations counts conversations; faulted_runs counts the enumerated re-runs. Non-trivial = the conversation has >= 3 commands and >= 1 resultset program.".into()
     }
     fn exhaustive_note(&self, _tier: Tier) -> Option<String> {
         Some("fault points of each generated conversation (all k for EOF / one-off / persistent / zero-write faults, all callback indexes for shim errors)".into())
@@ -56,6 +56,47 @@ impl Prop for C19 {
         }
         Case { conv, stride: 1 }
     }
+    fn fixed(&self, tier: Tier) -> Vec<Case> {
+        // responses containing a packet of 2^24-1 bytes or more, written explicitly and from the
+        // writers' destructors: the fault points around the maximal packet matter too
+        use crate::vals::*;
+        use crate::wire::*;
+        let mut v = Vec::new();
+        let lens: &[usize] = match tier {
+            Tier::Quick => &[MAX_PAYLOAD + 10],
+            Tier::Thorough => &[MAX_PAYLOAD - 6, MAX_PAYLOAD - 3, MAX_PAYLOAD + 10, 2 * MAX_PAYLOAD + 5],
+        };
+        for (i, &len) in lens.iter().enumerate() {
+            for variant in 0..3 {
+                let big = |form| RowProg { cells: vec![Val::plain(Base::BigBytes { seed: i as u32 + 3, len })], form };
+                let small = RowProg { cells: vec![Val::plain(Base::Slice(b"x".to_vec()))], form: RowForm::WriteRow };
+                let cols = vec![ColSpec::simple("c", T_LONG_BLOB, 0)];
+                let (bin, rows, end) = match variant {
+                    // binary, last row left open, RowWriter dropped: the big packet leaves from a destructor
+                    0 => (true, vec![small.clone(), big(RowForm::ColsOpen)], SetEnd::DropRowWriter),
+                    // text, explicit finish
+                    1 => (false, vec![big(RowForm::WriteRow), small.clone()], SetEnd::Finish),
+                    // binary, explicit end_row, QueryResultWriter dropped after finish_one
+                    _ => (true, vec![big(RowForm::Cols)], SetEnd::FinishOne),
+                };
+                let mut steps = vec![Step::Set { cols, rows, end }];
+                if variant == 2 {
+                    steps.push(Step::DropResultWriter);
+                }
+                let prog = Program { steps };
+                let conv = if bin {
+                    Conversation::new(
+                        vec![Cmd::Prepare { text: Blob::text("p") }, Cmd::Execute { id: 1, params: vec![], send_types: false, flags: 0, iterations: 1 }, Cmd::Close { id: 1 }, Cmd::Quit],
+                        vec![Action::Prepare(PrepProg::Reply { id: 1, params: vec![], cols: vec![] }), Action::Result(prog)],
+                    )
+                } else {
+                    Conversation::new(vec![Cmd::Query { text: Blob::text("big") }, Cmd::Ping], vec![Action::Result(prog)])
+                };
+                v.push(Case { conv, stride: 1 });
+            }
+        }
+        v
+    }
     fn exec(&self, case: &Case) -> Exec {
         let mut ex = Exec::default();
         let c = &case.conv;
@@ -74,6 +115,10 @@ impl Prop for C19 {
         let b = base.inbound_len;
         let has_prog = c.actions.iter().any(|a| matches!(a, Action::Result(p) if p.steps.iter().any(|s| matches!(s, Step::Set { .. }))));
         ex.nontrivial = c.cmds.len() >= 3 && has_prog;
+        if base.out.len() > (1 << 24) {
+            ex.class("response-with-maximal-packet");
+            // EOF positions inside the tiny request stream are few; ops are few too
+        }
         let quit_end = c.cmds.iter().position(|sc| matches!(sc.cmd, Cmd::Quit)).map(|i| base.msg_ends[i + 1]);
         let mut runs = 0u64;
         let mut drop_panics = 0u64;
